@@ -43,6 +43,10 @@ func runC19(c *Ctx) {
 	c.Rule("C19.O4", "E1", "TaskPool.concurrent is atomic-only; Timer.asyncList is guarded by asyncMux", 8)
 	c.Rule("C19.O5", "E4,E1-atomic", "Timer.Async hand-over: head decided in the append's critical section; drainer exhaustion+reset atomic, functions run unlocked in a recover frame, index +1", 3)
 	c.Rule("C19.O6", "E4", "fork's contract with its callers: every return of fork, true or false, is dominated by the +1 on the worker counter (the callers undo exactly one on false)", 1)
+	c.Rule("C19.O8", "E4", "a recover frame cannot panic itself: the recovered value is never type-asserted without the comma-ok form (a non-error panic value would panic again inside the deferred function and escape the pool)", 1)
+	c.Rule("C19.O9", "E5", "Timer.Async only queues: the submitted function is appended to the async list and reaches nothing else (no AfterFunc, go or direct call), so the serial drainer is the only one that runs it", 1)
+	c.Rule("C19.O10", "E4", "an IO task cannot lose a unit of parallelism by panicking: a buffer obtained by a channel receive in IOTaskPool.Go/Call is given back in a deferred call (a sync.Pool needs no give-back)", 2)
+	c19Round5(c)
 	c.Rule("C19.O7", "E5", "tasks are run only by the pool's own goroutines (the worker closure of fork, the dispatcher, Call's own goroutine): Go never runs a task on the submitter, which would be outside the worker accounting", 1)
 	c19WhoRuns(c)
 	c19ForkBalance(c)
@@ -493,4 +497,72 @@ func c19WhoRuns(c *Ctx) {
 		}
 	}
 	c.Cond(bad == "" && len(callers) > 0, "C19.O7", "who runs tasks", "", fmt.Sprintf("%v", sortedKeys(callers)), bad)
+}
+
+// c19Round5: O8, O9, O10.
+func c19Round5(c *Ctx) {
+	n := 0
+	bad := ""
+	for _, f := range c.libFuncs() {
+		for _, cs := range c.P.CallsNamed(f, "builtin:recover") {
+			n++
+			dep := c.dependsOn(f, cs.Value())
+			for _, b := range f.Blocks {
+				for _, in := range b.Instrs {
+					if ta, ok := in.(*ssa.TypeAssert); ok && !ta.CommaOk && dep[ta.X] {
+						bad = "the recovered value is type-asserted without comma-ok at " + c.Pos(ta) + ": a task that panics with a value of another type makes the deferred function panic itself, and that panic is not contained"
+					}
+				}
+			}
+		}
+	}
+	c.Cond(bad == "", "C19.O8", "recover frames do not assert the panic value", "", fmt.Sprintf("%d recover site(s)", n), bad)
+
+	if fn := c.Fn("C19.O9", "(*timer.Timer).Async"); fn != nil && len(fn.Params) >= 2 {
+		f := fn.Params[1]
+		bad := ""
+		for _, r := range *f.Referrers() {
+			switch x := r.(type) {
+			case *ssa.DebugRef:
+			case *ssa.Store:
+				// into the variadic array of append: accepted
+			case ssa.CallInstruction:
+				bad = "the submitted function is handed to " + c.P.CalleeName(x.Common()) + " at " + c.Pos(r) + " instead of the queue: it runs outside the serial drainer, next to or ahead of functions queued before it"
+			case *ssa.MakeClosure:
+				bad = "the submitted function is captured by a closure at " + c.Pos(r) + " instead of being queued"
+			default:
+				bad = fmt.Sprintf("the submitted function flows into %T at %s", r, c.Pos(r))
+			}
+		}
+		c.Cond(bad == "", "C19.O9", fnKey(c.P, fn, "f only queued"), c.FnPos(fn), "only use: append to the async list", bad)
+	}
+
+	for _, name := range []string{"(*taskpool.IOTaskPool).Go", "(*taskpool.IOTaskPool).Call"} {
+		fn := c.Fn("C19.O10", name)
+		if fn == nil {
+			continue
+		}
+		bad := ""
+		for _, g := range ir.WithClosures(fn) {
+			recv := false
+			deferred := false
+			for _, b := range g.Blocks {
+				for _, in := range b.Instrs {
+					if u, ok := in.(*ssa.UnOp); ok && u.Op == token.ARROW {
+						recv = true
+					}
+					if _, ok := in.(*ssa.Select); ok {
+						recv = true
+					}
+					if _, ok := in.(*ssa.Defer); ok {
+						deferred = true
+					}
+				}
+			}
+			if recv && !deferred {
+				bad = c.P.FuncName(g) + " takes its buffer from a channel and gives it back after the task without a defer: a panicking task (which the pool contains) never returns it, and after as many failures as there are buffers no IO task can run any more"
+			}
+		}
+		c.Cond(bad == "", "C19.O10", fnKey(c.P, fn, "buffer survives a panicking task"), c.FnPos(fn), "sync.Pool, or a deferred give-back", bad)
+	}
 }
